@@ -206,7 +206,13 @@ int parse_instruction_f100_l(AsmContext *asm_context, char *instr)
     if (strcasecmp(token, "short") == 0)
     {
       operands[operand_count].force_short = true;
-      asm_context->memory_write(asm_context->address, 2);
+
+      // The size memo belongs to the first operand, the only one that has
+      // a short and a long form.
+      if (operand_count == 0)
+      {
+        asm_context->memory_write(asm_context->address, 2);
+      }
       token_type = tokens_get(asm_context, token, TOKENLEN);
     }
 
@@ -313,7 +319,11 @@ int parse_instruction_f100_l(AsmContext *asm_context, char *instr)
       operands[operand_count].type = OPERAND_ADDRESS;
       operands[operand_count].value = num;
       operands[operand_count].force_long = true;
-      asm_context->memory_write(asm_context->address, 1);
+
+      if (operand_count == 0)
+      {
+        asm_context->memory_write(asm_context->address, 1);
+      }
     }
       else
     if (IS_TOKEN(token, '/'))
@@ -355,7 +365,7 @@ int parse_instruction_f100_l(AsmContext *asm_context, char *instr)
       int ret = get_num(asm_context, num, instr);
 
       if (ret == -1) { return -1; }
-      if (ret == -2)
+      if (ret == -2 && operand_count == 0)
       {
         if (!operands[operand_count].force_short)
         {
@@ -366,10 +376,13 @@ int parse_instruction_f100_l(AsmContext *asm_context, char *instr)
       operands[operand_count].type = OPERAND_ADDRESS;
       operands[operand_count].value = num;
 
-      int i = asm_context->memory_read(asm_context->address);
+      if (operand_count == 0)
+      {
+        int i = asm_context->memory_read(asm_context->address);
 
-      if (i == 1) { operands[operand_count].force_long = true; }
-      if (i == 2) { operands[operand_count].force_short = true; }
+        if (i == 1) { operands[operand_count].force_long = true; }
+        if (i == 2) { operands[operand_count].force_short = true; }
+      }
     }
 
     operand_count++;
@@ -431,9 +444,12 @@ int parse_instruction_f100_l(AsmContext *asm_context, char *instr)
                 }
               }
 
+              // With "short" the value could be a pass 1 placeholder, so
+              // only force_long can select the long form (pass 2 range
+              // checks the address in check_address()).
               if (operands[0].force_long ||
-                  operands[0].value < 1 ||
-                  operands[0].value > 0x7ff)
+                  (!operands[0].force_short &&
+                   (operands[0].value < 1 || operands[0].value > 0x7ff)))
               {
                 opcode = table_f100_l[n].opcode | 0x0800;
 
@@ -583,9 +599,12 @@ int parse_instruction_f100_l(AsmContext *asm_context, char *instr)
                 }
               }
 
+              // With "short" the value could be a pass 1 placeholder, so
+              // only force_long can select the long form (pass 2 range
+              // checks the address in check_address()).
               if (operands[0].force_long ||
-                  operands[0].value < 1 ||
-                  operands[0].value > 0x7ff)
+                  (!operands[0].force_short &&
+                   (operands[0].value < 1 || operands[0].value > 0x7ff)))
               {
                 opcode = table_f100_l[n].opcode | 0x0800;
 
